@@ -75,7 +75,7 @@ def run_shard(job):
             incomplete = True
         out.update(stats=eng.stats, violations=eng.violations, unknowns=eng.unknowns, samples=eng.samples[:2],
                    reached=sorted(eng.reached), funcs=sorted(funcs), incomplete=incomplete,
-                   known_seen=eng.known_seen, extra=getattr(eng, "extra", None))
+                   known_seen=eng.known_seen, extra=getattr(eng, "extra", None), label_counts=eng.label_counts)
     except BaseException as ex:  # noqa: BLE001
         out["error"] = "".join(traceback.format_exception(type(ex), ex, ex.__traceback__))[-3000:]
     out["wall"] = time.time() - t0
@@ -204,9 +204,10 @@ def main(argv=None):
     lines = []
     if violations:
         cnt = {}
-        for v in violations:
-            cnt[v["label"]] = cnt.get(v["label"], 0) + 1
-        lines.append("refuted claims (distinct labels, witnesses kept per shard are capped):")
+        for r in results:
+            for lab, n in (r.get("label_counts") or {}).items():
+                cnt[lab] = cnt.get(lab, 0) + n
+        lines.append("refuted claims (path classes per distinct claim):")
         for lab, n in sorted(cnt.items(), key=lambda kv: -kv[1])[:40]:
             lines.append(f"  refuted x{n}: {lab}")
     # ---- harness errors
